@@ -233,6 +233,52 @@ func cornerPaths(r *rand.Rand, rc [4]int64) Paths {
 	return out
 }
 
+// lapPaths: polygons that walk round the rectangle through its eight outside regions (four sides, four corner
+// regions) for part of a lap, a lap or more, in either direction, dipping into the rectangle now and then, with the
+// vertex list starting anywhere: the situations in which RectClip64 has to replay the regions visited before the
+// first crossing and to decide which corners belong to the result
+func lapPaths(r *rand.Rand, rc [4]int64) Paths {
+	w, h := rc[2]-rc[0], rc[3]-rc[1]
+	pick := func(lo, hi int64) int64 { return lo + r.Int63n(hi-lo+1) }
+	region := func(k int) Pt {
+		xl, xm, xr := pick(rc[0]-w, rc[0]-1), pick(rc[0], rc[2]), pick(rc[2]+1, rc[2]+w)
+		yt, ym, yb := pick(rc[1]-h, rc[1]-1), pick(rc[1], rc[3]), pick(rc[3]+1, rc[3]+h)
+		switch k {
+		case 0:
+			return Pt{xl, yt}
+		case 1:
+			return Pt{xl, ym}
+		case 2:
+			return Pt{xl, yb}
+		case 3:
+			return Pt{xm, yb}
+		case 4:
+			return Pt{xr, yb}
+		case 5:
+			return Pt{xr, ym}
+		case 6:
+			return Pt{xr, yt}
+		}
+		return Pt{xm, yt}
+	}
+	k := r.Intn(8)
+	dir := 1 - 2*r.Intn(2)
+	m := 4 + r.Intn(8)
+	var q Path
+	for i := 0; i < m; i++ {
+		if r.Intn(4) == 0 {
+			q = append(q, Pt{pick(rc[0]+1, rc[2]-1), pick(rc[1]+1, rc[3]-1)}) // inside
+		}
+		q = append(q, region(((k%8)+8)%8))
+		k += dir * (1 + r.Intn(2))
+	}
+	if r.Intn(2) == 0 {
+		j := r.Intn(len(q))
+		q = append(append(Path{}, q[j:]...), q[:j]...)
+	}
+	return Paths{q}
+}
+
 func driveRect(r *rand.Rand, w *writer, n int) {
 	for i := 0; i < n; i++ {
 		paths := genClosedSet(r, r.Intn(nClosedFams))
@@ -240,7 +286,11 @@ func driveRect(r *rand.Rand, w *writer, n int) {
 		if r.Intn(4) == 0 {
 			x0, y0 := int64(r.Intn(40)-20), int64(r.Intn(40)-20)
 			rc = [4]int64{x0, y0, x0 + 8 + int64(r.Intn(40)), y0 + 8 + int64(r.Intn(40))}
-			paths = cornerPaths(r, rc)
+			if r.Intn(2) == 0 {
+				paths = cornerPaths(r, rc)
+			} else {
+				paths = lapPaths(r, rc)
+			}
 		}
 		e := &RectEv{Ev: "RectClip", Chk: chkFor("C06"), Api: rectApis[r.Intn(3)], Rect: rc, Paths: paths}
 		execRect(r, e)
